@@ -1,6 +1,111 @@
-import WsVerif.Model.Basic
-/-! placeholder until the batch model lands (replaced by the full file) -/
+import WsVerif.Model.Batch
+import WsVerif.Model.Stats
+/-!
+# C06 — each spectrum of a dataset is processed independently
+
+**Read this first.**  In the model a dataset operation *is* `List.map` / `List.zipWith` of the
+single-spectrum model (`Model/Batch.lean`), so the statements below are true *by construction of the model*:
+they only spell out what "position by position" means (the value at position `i` is the single-spectrum
+value on spectrum `i` with its own wind/depth; changing another position changes nothing at `i`; shape is
+preserved; the `Dataset` wrapper forwards to `efth`).  They carry no assurance about the implementation on
+their own.  The assurance for C06 is the **correspondence check** (`harness/checks/c06.py`): the batched
+implementation is compared, at every position of datasets with 0–3 non-spectral dimensions, with the
+implementation on the extracted spectrum and with this model, before and after perturbing one spectrum.
+-/
 namespace WS.C06
+open WS WS.Batch
+
+/-- kept from the first version of this file: a mapped dataset, position by position -/
 theorem batched_map_get {α β : Type} (op : α → β) (ds : List α) (i : Nat) (h : i < ds.length) :
     (ds.map op)[i]'(by simpa using h) = op ds[i] := by simp
+
+/-- the batched result at position `i` is the single-spectrum result on spectrum `i` with its own
+    auxiliary input (`none` on both sides exactly outside the common range) -/
+theorem batched_get {α β : Type} (op : Mat → α → β) (ds : List Mat) (aux : List α) (i : Nat) :
+    (opD op ds aux)[i]? = (match ds[i]?, aux[i]? with
+      | some e, some a => some (op e a)
+      | _, _ => none) := by
+  unfold opD
+  rw [List.getElem?_zipWith]
+  cases ds[i]? <;> cases aux[i]? <;> rfl
+
+/-- same with proofs of validity of the index -/
+theorem batched_get_valid {α β : Type} (op : Mat → α → β) (ds : List Mat) (aux : List α) (i : Nat)
+    (h1 : i < ds.length) (h2 : i < aux.length) :
+    (opD op ds aux)[i]'(by simp [opD]; omega) = op ds[i] aux[i] := by
+  simp [opD]
+
+/-- no auxiliary input -/
+theorem batched_get1 {β : Type} (op : Mat → β) (ds : List Mat) (i : Nat) :
+    (opD1 op ds)[i]? = (ds[i]?).map op := by
+  simp [opD1]
+
+/-- the result has one entry per spectrum -/
+theorem batched_length {α β : Type} (op : Mat → α → β) (ds : List Mat) (aux : List α) :
+    (opD op ds aux).length = min ds.length aux.length := by
+  simp [opD]
+
+theorem batched_length_eq {α β : Type} (op : Mat → α → β) (ds : List Mat) (aux : List α)
+    (h : aux.length = ds.length) : (opD op ds aux).length = ds.length := by
+  simp [opD, h]
+
+theorem batched_length1 {β : Type} (op : Mat → β) (ds : List Mat) : (opD1 op ds).length = ds.length := by
+  simp [opD1]
+
+/-- replacing the spectrum at position `j` does not change the result at any other position -/
+theorem update_other {α β : Type} (op : Mat → α → β) (ds : List Mat) (aux : List α) (i j : Nat) (x : Mat)
+    (hij : i ≠ j) : (opD op (ds.set j x) aux)[i]? = (opD op ds aux)[i]? := by
+  unfold opD
+  rw [List.getElem?_zipWith, List.getElem?_zipWith, List.getElem?_set_ne (Ne.symm hij)]
+
+/-- replacing the auxiliary input (wind, depth) at position `j` does not change any other position -/
+theorem update_other_aux {α β : Type} (op : Mat → α → β) (ds : List Mat) (aux : List α) (i j : Nat) (a : α)
+    (hij : i ≠ j) : (opD op ds (aux.set j a))[i]? = (opD op ds aux)[i]? := by
+  unfold opD
+  rw [List.getElem?_zipWith, List.getElem?_zipWith, List.getElem?_set_ne (Ne.symm hij)]
+
+theorem update_other1 {β : Type} (op : Mat → β) (ds : List Mat) (i j : Nat) (x : Mat) (hij : i ≠ j) :
+    (opD1 op (ds.set j x))[i]? = (opD1 op ds)[i]? := by
+  simp [opD1, List.getElem?_set_ne (Ne.symm hij)]
+
+/-- and at the replaced position the result is the single-spectrum result on the new spectrum -/
+theorem update_self {α β : Type} (op : Mat → α → β) (ds : List Mat) (aux : List α) (j : Nat) (x : Mat)
+    (h1 : j < ds.length) (h2 : j < aux.length) :
+    (opD op (ds.set j x) aux)[j]? = some (op x aux[j]) := by
+  unfold opD
+  rw [List.getElem?_zipWith]
+  simp [h1, h2]
+
+/-- a batch of batches (several non-spectral dimensions) is the batch of the flattened dataset -/
+theorem batched_flatten {β : Type} (op : Mat → β) (dss : List (List Mat)) :
+    opD1 op dss.flatten = (dss.map (opD1 op)).flatten := by
+  unfold opD1
+  rw [List.map_flatten]
+
+/-- calling through the `Dataset` wrapper is calling on the `efth` variable; the other variables are
+    irrelevant (`rfl`: the model forwards, as `SpecDataset.__getattr__` does) -/
+theorem dataset_accessor_eq {β : Type} (op : Mat → β) (d : Dataset) : d.call op = opD1 op d.efth := rfl
+
+theorem dataset_accessor_aux_eq {α β : Type} (op : Mat → α → β) (d : Dataset) (aux : List α) :
+    d.callAux op aux = opD op d.efth aux := rfl
+
+theorem dataset_others_irrelevant {β : Type} (op : Mat → β) (d : Dataset) (o : List (String × List Rat)) :
+    ({ d with others := o } : Dataset).call op = d.call op := rfl
+
+/-! ### non-vacuity -/
+
+example := batched_get_valid (fun e (a : Rat) => a * (Stats.oned 1 e).sum) [[[1, 2]], [[3, 4]]] [10, 20] 1
+  (by decide) (by decide)
+example : (opD (fun e (a : Rat) => a * (Stats.oned 1 e).sum) [[[1, 2]], [[3, 4]]] [10, 20])[1]? = some 140 := by
+  decide +kernel
+example := update_other (fun e (a : Rat) => a * (Stats.oned 1 e).sum) [[[1, 2]], [[3, 4]]] [10, 20] 1 0 [[9]]
+  (by decide)
+example := update_self (fun e (a : Rat) => a * (Stats.oned 1 e).sum) [[[1, 2]], [[3, 4]]] [10, 20] 0 [[9]]
+  (by decide) (by decide)
+example := batched_length_eq (fun e (a : Rat) => a * (Stats.oned 1 e).sum) [[[1, 2]], [[3, 4]]] [10, 20] rfl
+example := update_other_aux (fun e (a : Rat) => a * (Stats.oned 1 e).sum) [[[1, 2]], [[3, 4]]] [10, 20] 1 0 7
+  (by decide)
+example := update_other1 (fun e => (Stats.oned 1 e).sum) [[[1, 2]], [[3, 4]]] 0 1 [[9]] (by decide)
+example := batched_map_get (fun e => (Stats.oned 1 e).sum) [[[1, 2]], [[3, 4]]] 1 (by decide)
+
 end WS.C06
